@@ -622,6 +622,7 @@ def gen_history(rng, profile='main', maxlen=12):
             tt = [t for t in ts if t in on_disk] or ts     # carry-in on a deleted file panics (assertion): rare stream below
             if rng.random() < 0.05: tt = ts
             h.append({'op': 'carryin', 'targets': tt, 'tob': rng.choice([None, None, None] + TOBS),
+                      # (--force on a hard-linked path re-commits the SAME inode: the model follows it with St.hardLinkOf)
                       'force': rng.random() < 0.15, 'no_parallel': rng.random() < 0.5})
         elif r < 0.74:
             h.append({'op': 'recheck', 'targets': ts, 'method': optm, 'force': rng.random() < 0.25, 'no_parallel': rng.random() < 0.5})
